@@ -821,7 +821,7 @@ fn par_block(w: &mut World, rec: &mut Recorder, r: &mut Rng) -> bool {
         let o = *r.pick(&flying);
         let k = if w.ops[o].kind.multi() { r.range(1, 3) } else { 1 };
         for _ in 0..k {
-            script.push((o, r.range(0, w.g.size as u64 + 2) as u32));
+            script.push((o, r.range(0, w.g.size.min(64) as u64 + 2) as u32));
         }
     }
     let preempt = *r.pick(&[10u64, 25, 40, 60]);
@@ -927,6 +927,12 @@ pub fn one_case(idx: usize, long_every: usize, r: &mut Rng, silent: &Arc<Mutex<O
     } else {
         r.range(1, 64) as usize
     };
+    // One case in 25: a pool that spans more than 4 GiB (8 buffers of 1 GiB; virtual memory only,
+    // the kernel and the edits touch at most 64 bytes of a buffer): buffer ids and offsets beyond
+    // 32 bits.
+    let huge = !long && !corpus_h26 && idx % 25 == 7;
+    let (k, n, size) = if huge { (3u32, 8usize, 1usize << 30) } else { (k, n, size) };
+    let _ = k;
     let nbufs = n + 3;
 
     simk::configure(simk::SetupConfig { sq_start: r.next() as u32, cq_start: r.next() as u32, ..Default::default() });
@@ -937,7 +943,14 @@ pub fn one_case(idx: usize, long_every: usize, r: &mut Rng, silent: &Arc<Mutex<O
         .expect("ring on the simulated kernel");
     let ring_fd = simk::with(|s| s.fd);
     let sq = ring.sq();
-    let pool = ReadBufPool::new(sq.clone(), n as u16, size as u32).expect("ReadBufPool::new on the simulated kernel");
+    let (pool, n, size, huge) = match ReadBufPool::new(sq.clone(), n as u16, size as u32) {
+        Ok(p) => (p, n, size, huge),
+        // No address space for the large pool on this machine: an ordinary one instead.
+        Err(_) if huge => (ReadBufPool::new(sq.clone(), 8, 64).expect("ReadBufPool::new on the simulated kernel"), 8, 64, false),
+        Err(e) => panic!("ReadBufPool::new on the simulated kernel: {e}"),
+    };
+    // What lengths and edits are drawn from: the whole buffer, except for the 1 GiB buffers.
+    let gsize = size.min(64);
     let bgid = simk::with_fd(ring_fd, |s| s.pbufs.keys().copied().next()).flatten().expect("a registered buffer ring");
     let first = simk::with_fd(ring_fd, |s| s.pbuf_available(bgid)).unwrap();
     let base = first.iter().find(|e| e.0 == 0).map(|e| e.1 as usize).unwrap_or(0);
@@ -975,7 +988,7 @@ pub fn one_case(idx: usize, long_every: usize, r: &mut Rng, silent: &Arc<Mutex<O
     }
     w.check_all();
 
-    let mut tags: Vec<String> = vec![format!("pool_size:{n}"), format!("buf_size:{}", if size == 1 { "1".into() } else if size < 8 { "2-7".to_string() } else if size < 64 { "8-63".into() } else { "64".to_string() })];
+    let mut tags: Vec<String> = vec![format!("pool_size:{n}"), format!("buf_size:{}", if size == 1 { "1".into() } else if size < 8 { "2-7".to_string() } else if size < 64 { "8-63".into() } else if size == 64 { "64".to_string() } else { "1GiB(pool>4GiB)".to_string() })];
     let mut threaded = false;
 
     if corpus_h26 {
@@ -998,7 +1011,7 @@ pub fn one_case(idx: usize, long_every: usize, r: &mut Rng, silent: &Arc<Mutex<O
     if long {
         // More than 2^16 releases on a pool of two: the ring tail (starting at 2) wraps.
         let rounds = 70_000 + r.below(2_000);
-        let len = r.range(1, size as u64) as u32;
+        let len = r.range(1, gsize as u64) as u32;
         if r.chance(1, 2) {
             let kind = if r.chance(1, 2) { Kind::MultiRead } else { Kind::MultiRecv };
             rec.step(&mut w, Bev::Start(0, kind, true));
@@ -1052,10 +1065,10 @@ pub fn one_case(idx: usize, long_every: usize, r: &mut Rng, silent: &Arc<Mutex<O
                 14..=37 if !flying.is_empty() => {
                     let o = *r.pick(&flying);
                     let len = match r.below(4) {
-                        0 => size as u32,
-                        1 => size as u32 + 1 + r.below(5) as u32,
+                        0 => gsize as u32,
+                        1 => gsize as u32 + 1 + r.below(5) as u32,
                         2 => r.below(2) as u32,
-                        _ => r.range(0, size as u64) as u32,
+                        _ => r.range(0, gsize as u64) as u32,
                     };
                     Some(Bev::KPick(o, len))
                 }
@@ -1065,7 +1078,7 @@ pub fn one_case(idx: usize, long_every: usize, r: &mut Rng, silent: &Arc<Mutex<O
                 65..=69 if allow_abandon && !live_ops.is_empty() => Some(Bev::DropOp(*r.pick(&live_ops))),
                 70..=77 if !held.is_empty() => {
                     let b = *r.pick(&held);
-                    Some(Bev::Edit(b, r.range(0, size as u64) as usize))
+                    Some(Bev::Edit(b, r.range(0, gsize as u64) as usize))
                 }
                 78..=85 if !held.is_empty() => Some(Bev::Release(*r.pick(&held))),
                 86..=99 if !held.is_empty() => {
